@@ -204,6 +204,49 @@ def wildcard(res):
             res.violation('h07:wildcard-rowlen:' + tname, 'every row has one value per described column', {'query': q, 'ledger': 'A'}, [len(r) for r in rows][:3], len(cols))
 
 
+def lifecycle(res):
+    """the description is a function of the statement alone: the same on an empty result, after other statements (also PRINT, also
+    on another table) were compiled on the connection, and for a result that is still held while the connection executes more"""
+    conn = make_conn(t=(COLS, ROWS), e=(COLS, []))
+    for q, want in [('SELECT a, b AS k, a + 1 FROM #t WHERE a > 100000', ['a', 'k', 'a + 1']), ('SELECT a, b FROM #t LIMIT 0', ['a', 'b']),
+                    ('SELECT * FROM #e', ['a', 'b', 'c']), ('SELECT b, count(*) AS n FROM #t GROUP BY b HAVING count(*) > 1000', ['b', 'n']),
+                    ('SELECT k FROM (SELECT a AS k FROM #t WHERE a > 100000)', ['k']), ('SELECT count(*) AS n FROM #e', ['n'])]:
+        res.case(('empty-result', q))
+        try:
+            cur = conn.execute(q)
+            got = None if cur.description is None else [d.name for d in cur.description]
+            n = len(cur.fetchall())
+        except Exception as ex:
+            got, n = f'{type(ex).__name__}: {ex}', -1
+        if got != want:
+            res.violation('h07:empty-result-description:' + q[:50], 'the description lists the targets also when no row is returned', {'query': q, 'rows': n}, got, want)
+    # two results of Connection.execute held at once
+    res.case('coexisting-results')
+    first = conn.execute('SELECT a, b AS k FROM #t')
+    second = conn.execute('SELECT c FROM #t WHERE a > 1')
+    d1, d2 = [d.name for d in first.description], [d.name for d in second.description]
+    w1 = first.fetchall()
+    if d1 != ['a', 'k'] or d2 != ['c'] or any(len(r) != 2 for r in w1) or len(w1) != len(ROWS):
+        res.violation('h07:coexisting-results', 'a result keeps describing its own statement while the connection executes other statements', {'queries': ['SELECT a, b AS k FROM #t', 'SELECT c FROM #t WHERE a > 1']},
+                      (d1, d2, w1[:2]), (['a', 'k'], ['c'], len(ROWS)))
+    # a ledger connection: `*` and bare columns resolve against the default table whatever was compiled before
+    from harness import ledger
+    lc = ledger.connect()
+    want_star = [d.name for d in ledger.connect().execute('SELECT *').description]
+    want_cols = [d.name for d in ledger.connect().execute('SELECT account, number').description]
+    for before in ('PRINT FROM year = 2020', 'SELECT type FROM #entries', 'SELECT account FROM #accounts', 'BALANCES', 'JOURNAL'):
+        res.case(('after-compile', before))
+        try:
+            lc.compile(lc.parse(before))
+            got_star = [d.name for d in lc.execute('SELECT *').description]
+            got_cols = [d.name for d in lc.execute('SELECT account, number').description]
+        except Exception as ex:
+            got_star = got_cols = f'{type(ex).__name__}: {ex}'
+        if got_star != want_star or got_cols != want_cols:
+            res.violation('h07:after-compile:' + before[:30], 'the targets of a statement resolve against its own table, whatever the connection compiled before', {'compiled_before': before},
+                          (got_star, got_cols), (want_star, want_cols))
+
+
 def run(tier, seed):
     res = Result('targets: aliased / bare-column / expression targets with odd spacing, comments, parentheses and letter case, duplicate names, '
                  '0-3 hidden GROUP BY / ORDER BY / HAVING expressions; wildcard on every table kind; distinct = distinct query')
@@ -214,6 +257,7 @@ def run(tier, seed):
             clause, cse, obs, exp = bad
             res.violation('h07:' + clause[:50] + ':' + cse['query'][:80], clause, cse, obs, exp)
     wildcard(res)
+    lifecycle(res)
     return res.asdict()
 
 
